@@ -237,7 +237,7 @@ def make_seeds(enc, rng):
     seeds.append(enc.cmd("colvar_cvcflags", 0, vals=["0"]) + S + enc.cmd("colvar_value", 0) + enc.cmd("colvar_cvcflags", 0, vals=["1 1"]) + S)
     seeds.append(enc.cmd("cv_config", vals=["abf {\n name a\n colvars d\n fullSamples 2\n}\n"]) + S + S + enc.cmd("bias_bin", 7) + enc.raw(["cv", "bias", "a", "bincount", "1"])
                  + enc.raw(["cv", "bias", "a", "bincount", "-1"]) + enc.raw(["cv", "bias", "a", "bincount", "2147483648"]) + enc.raw(["cv", "bias", "a", "binnum"]) + S)
-    seeds.append(enc.raw(["cv"]) + enc.raw([]) + enc.raw(["cv", "colvar"]) + enc.raw(["cv", "colvar", "d"]) + enc.raw(["cv", "bias", "h", ""]) + enc.raw(["cv", "nope"])
+    seeds.append(enc.raw(["cv"]) + enc.raw([]) + enc.raw(["cv", "colvar"]) + enc.raw(["cv", "colvar", "d"]) + enc.raw(["cv", "bias", "harmonic1", ""]) + enc.raw(["cv", "nope"])
                  + enc.raw(["cv", "colvar", "nope", "help"]) + enc.raw(["cv", "bias", "nope", "help", "energy"]) + enc.raw(["", "", "", ""]) + S)
     for ncv in ("e", "u", "q", "r"):
         cfg = [v for v in enc.values if v.startswith("colvar {\n name %s\n" % ncv)]
@@ -325,7 +325,11 @@ def run_fuzz(c, tier):
     try:
         dump = json.loads(r["out"].strip().splitlines()[-1])
     except (ValueError, IndexError):
-        c.inconc("fz_script did not print its tables: rc=%s %s" % (r["rc"], r["err"][-300:]))
+        if "FZ_SCRIPT REFERENCE EPILOGUE FAILED" in r["err"]:
+            c.violation("fuzz:epilogue_reference_failed", "cv reset / cv config <known configuration> / one step fails on a module that "
+                        "only loaded that configuration and made one step: %s" % r["err"][-600:])
+        else:
+            c.inconc("fz_script did not print its tables: rc=%s %s" % (r["rc"], r["err"][-300:]))
         return 0, {}, []
     enc = Enc(dump)
     table = dump["commands"]
@@ -460,7 +464,7 @@ def run_fuzz(c, tier):
         with open(sp, "w") as f:
             f.write("\n".join(trace) + "\n\n" + t["err"][-20000:])
         head = (common.sanitizer_report(t["err"]) or t["kind"])
-        seq = [l[len("FZ_SCRIPT "):] for l in trace][-8:]
+        seq = [l[len("FZ_SCRIPT "):].strip() for l in trace][-10:]
         text = ("%s; innermost Colvars frame / first differing epilogue record %s; %d artifact(s); last commands of the "
                 "minimised sequence (%d bytes): %s" % (head, t["frame"], len(ts), len(small), " | ".join(s[:160] for s in seq)))
         found.append(key)
